@@ -196,9 +196,14 @@ class Search:
                     break
                 m = r
                 env = self._step_env(env, e)
+                if any(n.get("k") == "call" and n.get("noreturn") for n in own_walk(e)):
+                    dead = True   # abort path (__assert_fail …): not a normal continuation
+                    break
             if dead:
                 continue
-            if bid == fn.exit or not b.succs:
+            if not b.succs and bid != fn.exit:
+                continue
+            if bid == fn.exit:
                 r = self.mon.exit(m, bid, self)
                 if isinstance(r, Viol):
                     r.pt = r.pt or (bid, 0)
@@ -325,8 +330,14 @@ class GateMonitor(Monitor):
 class BeforeMonitor(Monitor):
     """Every path to a use point must have passed a guard point (dominance, path-sensitive)."""
 
-    def __init__(self, use_pts, guard_pts, reset_pts=()):
+    def __init__(self, use_pts, guard_pts, reset_pts=(), check_exit=False):
         self.use, self.guard, self.reset = set(use_pts), set(guard_pts), set(reset_pts)
+        self.check_exit = check_exit
+
+    def exit(self, m, bid, s):
+        if self.check_exit and not m:
+            return Viol("function exit reached without passing the required statement")
+        return None
 
     def elem(self, m, pt, e, s):
         if pt in self.guard:
